@@ -705,7 +705,34 @@ impl Eval {
         })
     }
 
+    /// a hand-written inherent `to_string` / `to_json` of the value's type (any instance of it; the
+    /// generated code calls the method, so a hand-written one takes the place of a derived one)
+    fn user_render(&mut self, v: &Val, method: &str) -> R<Option<Vec<u8>>> {
+        let name: &str = match v {
+            Val::Struct(n, _) => n,
+            Val::Enum(n, _, _) => n,
+            _ => return Ok(None),
+        };
+        let found: Vec<FnDef> = self
+            .ix
+            .impls
+            .iter()
+            .filter(|im| im.trait_name.is_none() && matches!(&im.for_ty, Ty::Named(h, _) if h == name))
+            .filter_map(|im| im.methods.iter().find(|m| m.name == method).cloned())
+            .collect();
+        if found.len() != 1 {
+            return Ok(None);
+        }
+        match self.call_def(&found[0], vec![], vec![v.clone()])? {
+            Val::Str(s) => Ok(Some((*s).clone())),
+            _ => unsup("hand-written rendering method does not return a string"),
+        }
+    }
+
     fn leaf_to_string(&mut self, v: &Val) -> R<Vec<u8>> {
+        if let Some(s) = self.user_render(v, "to_string")? {
+            return Ok(s);
+        }
         Ok(match v {
             Val::Unit => b"()".to_vec(),
             Val::Bool(b) => b.to_string().into_bytes(),
@@ -761,6 +788,9 @@ impl Eval {
     }
 
     fn leaf_to_json(&mut self, v: &Val) -> R<Vec<u8>> {
+        if let Some(s) = self.user_render(v, "to_json")? {
+            return Ok(s);
+        }
         Ok(match v {
             Val::Unit => b"null".to_vec(),
             Val::Bool(b) => b.to_string().into_bytes(),
